@@ -316,6 +316,15 @@ def check_C14(tier, seed):
     res = Result("C14", tier, seed, "exploration")
     wd = workdir("C14")
     insts = universe.semantic_universe(tier, seed + 800)
+    # plus documents the frontend rejects (several errors at once: the error value and its text must be stable too), and argument maps
+    # with several variables missing / extra (the execution-time error)
+    import docfam, itertools, copy
+    alpha = ["filter", "output", "tag", "transform", "optional", "recurse", "fold", "bogus"]
+    seqs = [((), "", False)] + [((a,), "", False) for a in alpha] + [((a, b), "", False) for a in alpha for b in alpha]
+    docs = docfam.doc_instances(seqs, seed)
+    multi = [copy.deepcopy(i) for i in insts if len(i["args"]) >= 2][: (150 if tier == "quick" else 1500)]
+    for i in multi: i["args"] = {"zz_b": G.I(1), "zz_a": G.I(2), "zz_c": G.S("x")}; i["rawargs"] = True
+    insts = universe.renumber(insts + docs + multi)
     nproc = 3 if tier == "quick" else 8
     ip = os.path.join(wd, "inst.ndjson"); write_ndjson(ip, insts)
     rp = os.path.join(wd, "inst.rev.ndjson"); write_ndjson(rp, list(reversed(insts)))
